@@ -110,15 +110,41 @@ Proof.
     destruct (resolve r x _) as [[d v]|]; reflexivity.
 Qed.
 
-Lemma run_assign : forall m r u x e,
-  run m r u (SAssign x e) =
+Lemma eval_set : forall r u x e,
+  eval r u (ESet x e) =
   match eval r u e with
-  | Some v => match assign r x u v with Some r' => Some (r', []) | None => None end
+  | Some (r1, v) => match assign r1 x u v with Some r' => Some (r', v) | None => None end
   | None => None
   end.
 Proof.
-  intros. cbn [run]. unfold assign. destruct (eval r u e); [|reflexivity].
-  destruct (resolve r x u) as [[d w]|]; reflexivity.
+  intros. cbn [eval]. unfold assign. destruct (eval r u e) as [[r1 v]|]; [|reflexivity].
+  destruct (resolve r1 x u) as [[d w]|]; reflexivity.
+Qed.
+
+(* evaluation keeps the frame structure: same kind of current frame, same shape below it *)
+Lemma eval_frame : forall e f r u e' v,
+  eval (f :: r) u e = Some (e', v) ->
+  exists f' r', e' = f' :: r' /\ ftyp f' = ftyp f /\ shape r' = shape r.
+Proof.
+  induction e; intros f r u e' v H; cbn [eval] in H.
+  - injection H as <- <-. eauto.
+  - destruct (resolve (f :: r) x u) as [[d w]|]; [|discriminate]. injection H as <- <-. eauto.
+  - destruct (eval (f :: r) u e1) as [[r1 x1]|] eqn:E1; [|discriminate].
+    destruct (IHe1 _ _ _ _ _ E1) as (f1 & r1' & -> & Ht1 & Hs1).
+    destruct (eval (f1 :: r1') u e2) as [[r2 x2]|] eqn:E2; [|discriminate]. injection H as <- <-.
+    destruct (IHe2 _ _ _ _ _ E2) as (f2 & r2' & -> & Ht2 & Hs2).
+    exists f2, r2'. repeat split; congruence.
+  - eapply IHe; eauto.
+  - destruct (eval (f :: r) u e) as [[r1 x1]|] eqn:E1; [|discriminate].
+    destruct (IHe _ _ _ _ _ E1) as (f1 & r1' & -> & Ht1 & Hs1). injection H as <- <-.
+    exists (add f1 x x1), r1'. auto.
+  - destruct (eval (f :: r) u e) as [[r1 x1]|] eqn:E1; [|discriminate].
+    destruct (IHe _ _ _ _ _ E1) as (f1 & r1' & -> & Ht1 & Hs1).
+    destruct (resolve (f1 :: r1') x u) as [[d w]|]; [|discriminate]. injection H as <- <-.
+    pose proof (shape_update (f1 :: r1') d x x1) as Hs.
+    destruct (update (f1 :: r1') d x x1) as [|f' r'] eqn:E; cbn in Hs; [discriminate|].
+    injection Hs as Ht Hn Hr. exists f', r'. split; [exact E|]. split; [congruence|].
+    unfold shape in *. congruence.
 Qed.
 
 (* ------------------------------------------------------------------ shape preservation *)
@@ -135,14 +161,10 @@ Proof.
     destruct (IHs1 _ _ _ _ _ _ E1) as (f1 & r1' & -> & Ht1 & Hs1).
     destruct (IHs2 _ _ _ _ _ _ E2) as (f2 & r2' & -> & Ht2 & Hs2).
     exists f2, r2'. repeat split; congruence.
-  - destruct (eval (f :: r) u e); [|discriminate]. injection H as <- <-.
-    exists (add f x z), r. auto.
-  - destruct (eval (f :: r) u e); [|discriminate].
-    destruct (resolve (f :: r) x u) as [[d w]|]; [|discriminate]. injection H as <- <-.
-    pose proof (shape_update (f :: r) d x z) as Hs.
-    destruct (update (f :: r) d x z) as [|f' r'] eqn:E; cbn in Hs; [discriminate|].
-    injection Hs as Ht Hn Hr. exists f', r'. auto.
-  - destruct (eval (f :: r) u e); [|discriminate]. injection H as <- <-. eauto.
+  - destruct (eval (f :: r) u e) as [[r1 v1]|] eqn:E; [|discriminate]. injection H as <- <-.
+    eapply eval_frame; eauto.
+  - destruct (eval (f :: r) u e) as [[r1 v1]|] eqn:E; [|discriminate]. injection H as <- <-.
+    eapply eval_frame; eauto.
   - unfold scoped, push in H.
     destruct (run m (mkFrame FDefault [] :: f :: r) u s) as [[r1 o1]|] eqn:E1; [|discriminate].
     injection H as <- <-.
@@ -153,7 +175,8 @@ Proof.
     match type of H with match ?X with _ => _ end = _ => destruct X as [[r1 o1]|] eqn:E1; [|discriminate] end.
     injection H as <- <-.
     assert (G : exists f1 r1', r1 = f1 :: r1' /\ shape r1' = shape (f :: r)).
-    { destruct (eval (mkFrame FDefault [] :: f :: r) u c); [|discriminate].
+    { destruct (eval (mkFrame FDefault [] :: f :: r) u c) as [[rc vc]|] eqn:Ec; [|discriminate].
+      destruct (eval_frame _ _ _ _ _ _ Ec) as (fc & rc' & -> & Htc & Hsc).
       assert (Gs : forall b r0 f0 rr oo, scoped FCond (f0 :: r0) (fun r2 => run m r2 u b) = Some (rr, oo) ->
                    (forall m f r u e' o, run m (f :: r) u b = Some (e', o) ->
                       exists f' r', e' = f' :: r' /\ ftyp f' = ftyp f /\ shape r' = shape r) ->
@@ -165,15 +188,15 @@ Proof.
         exists f4, r4. auto. }
       destruct m.
       - unfold bind in E1.
-        destruct (scoped FCond (mkFrame FDefault [] :: f :: r) (fun r2 => run Static r2 u s1)) as [[ra oa]|] eqn:Ea; [|discriminate].
+        destruct (scoped FCond (fc :: rc') (fun r2 => run Static r2 u s1)) as [[ra oa]|] eqn:Ea; [|discriminate].
         destruct (Gs _ _ _ _ _ Ea IHs1) as (fa & ra' & -> & Hta & Hsa).
         destruct (scoped FCond (fa :: ra') (fun r2 => run Static r2 u s2)) as [[rb ob]|] eqn:Eb; [|discriminate].
         injection E1 as <- <-.
         destruct (Gs _ _ _ _ _ Eb IHs2) as (fb & rb' & -> & Htb & Hsb).
         exists fb, rb'. split; [reflexivity | congruence].
-      - destruct (Z.ltb 0 z).
-        + destruct (Gs _ _ _ _ _ E1 IHs1) as (fa & ra' & -> & Hta & Hsa). eauto.
-        + destruct (Gs _ _ _ _ _ E1 IHs2) as (fa & ra' & -> & Hta & Hsa). eauto. }
+      - destruct (Z.ltb 0 vc).
+        + destruct (Gs _ _ _ _ _ E1 IHs1) as (fa & ra' & -> & Hta & Hsa). exists fa, ra'. split; [reflexivity | congruence].
+        + destruct (Gs _ _ _ _ _ E1 IHs2) as (fa & ra' & -> & Hta & Hsa). exists fa, ra'. split; [reflexivity | congruence]. }
     destruct G as (f1 & r1' & -> & Hs1). cbn.
     destruct r1' as [|f' r']; cbn in Hs1; [discriminate|]. injection Hs1 as Ht Hn Hr.
     exists f', r'. auto.
@@ -260,8 +283,33 @@ Proof.
       exists (f :: J'), b'. cbn. auto.
 Qed.
 
-Lemma hyg_eval_true : forall e r u, expr_hyg e = true -> eval r u e = eval r u e.
-Proof. reflexivity. Qed.
+Lemma hygienic_expr_frame : forall e J b r e' v,
+  expr_hyg e = true -> ftyp b = FBoundary ->
+  eval (J ++ b :: r) false e = Some (e', v) ->
+  exists J' b', e' = J' ++ b' :: r /\ length J' = length J /\ ftyp b' = FBoundary.
+Proof.
+  induction e; intros J b r e' v Hh Hb H; cbn [eval expr_hyg] in *.
+  - injection H as <- <-. eauto.
+  - destruct (resolve (J ++ b :: r) x false) as [[d w]|]; [|discriminate]. injection H as <- <-. eauto.
+  - apply andb_true_iff in Hh as [Hh1 Hh2].
+    destruct (eval (J ++ b :: r) false e1) as [[r1 x1]|] eqn:E1; [|discriminate].
+    destruct (IHe1 _ _ _ _ _ Hh1 Hb E1) as (J1 & b1 & -> & Hl1 & Hb1).
+    destruct (eval (J1 ++ b1 :: r) false e2) as [[r2 x2]|] eqn:E2; [|discriminate]. injection H as <- <-.
+    destruct (IHe2 _ _ _ _ _ Hh2 Hb1 E2) as (J2 & b2 & -> & Hl2 & Hb2).
+    exists J2, b2. repeat split; auto; congruence.
+  - discriminate.
+  - destruct (eval (J ++ b :: r) false e) as [[r1 x1]|] eqn:E1; [|discriminate].
+    destruct (IHe _ _ _ _ _ Hh Hb E1) as (J1 & b1 & -> & Hl1 & Hb1).
+    destruct J1 as [|f1 J1]; cbn in H; injection H as <- <-.
+    + exists [], (add b1 x x1). auto.
+    + exists (add f1 x x1 :: J1), b1. auto.
+  - destruct (eval (J ++ b :: r) false e) as [[r1 x1]|] eqn:E1; [|discriminate].
+    destruct (IHe _ _ _ _ _ Hh Hb E1) as (J1 & b1 & -> & Hl1 & Hb1).
+    destruct (resolve (J1 ++ b1 :: r) x false) as [[d w]|] eqn:Er; [|discriminate]. injection H as <- <-.
+    apply resolve_hyg_depth in Er; auto.
+    destruct (update_app_le J1 b1 r d x x1 Er) as (J' & b' & -> & Hl & Ht).
+    exists J', b'. repeat split; auto; congruence.
+Qed.
 
 Lemma hygienic_body_frame : forall s m J b r e' o,
   stmt_hyg s = true -> ftyp b = FBoundary ->
@@ -276,16 +324,10 @@ Proof.
     destruct (IHs1 _ _ _ _ _ _ Hh1 Hb E1) as (J1 & b1 & -> & Hl1 & Hb1).
     destruct (IHs2 _ _ _ _ _ _ Hh2 Hb1 E2) as (J2 & b2 & -> & Hl2 & Hb2).
     exists J2, b2. repeat split; auto; congruence.
-  - destruct (eval (J ++ b :: r) false e); [|discriminate].
-    destruct J as [|f J]; cbn in H; injection H as <- <-.
-    + exists [], (add b x z). auto.
-    + exists (add f x z :: J), b. auto.
-  - destruct (eval (J ++ b :: r) false e); [|discriminate].
-    destruct (resolve (J ++ b :: r) x false) as [[d w]|] eqn:Er; [|discriminate]. injection H as <- <-.
-    apply resolve_hyg_depth in Er; auto.
-    destruct (update_app_le J b r d x z Er) as (J' & b' & -> & Hl & Ht).
-    exists J', b'. repeat split; auto; congruence.
-  - destruct (eval (J ++ b :: r) false e); [|discriminate]. injection H as <- <-. eauto.
+  - destruct (eval (J ++ b :: r) false e) as [[r1 v1]|] eqn:E; [|discriminate]. injection H as <- <-.
+    eapply hygienic_expr_frame; eauto.
+  - destruct (eval (J ++ b :: r) false e) as [[r1 v1]|] eqn:E; [|discriminate]. injection H as <- <-.
+    eapply hygienic_expr_frame; eauto.
   - unfold scoped, push in H.
     destruct (run m (mkFrame FDefault [] :: J ++ b :: r) false s) as [[r1 o1]|] eqn:E1; [|discriminate].
     injection H as <- <-.
@@ -307,19 +349,20 @@ Proof.
     match type of H with match ?X with _ => _ end = _ => destruct X as [[r1 o1]|] eqn:E1; [|discriminate] end.
     injection H as <- <-.
     change (mkFrame FDefault [] :: J ++ b :: r) with ((mkFrame FDefault [] :: J) ++ b :: r) in E1.
-    destruct (eval ((mkFrame FDefault [] :: J) ++ b :: r) false c); [|discriminate].
+    destruct (eval ((mkFrame FDefault [] :: J) ++ b :: r) false c) as [[rc vc]|] eqn:Ec; [|discriminate].
+    destruct (hygienic_expr_frame _ _ _ _ _ _ Hh0 Hb Ec) as (Jc & bc & -> & Hlc & Hbc).
     assert (G : exists J' b', r1 = J' ++ b' :: r /\ length J' = S (length J) /\ ftyp b' = FBoundary).
     { destruct m.
       - unfold bind in E1.
-        destruct (scoped FCond ((mkFrame FDefault [] :: J) ++ b :: r) (fun r2 => run Static r2 false s1)) as [[ra oa]|] eqn:Ea; [|discriminate].
-        destruct (Gs _ _ _ _ _ Hh1 Hb IHs1 Ea) as (Ja & ba & -> & Hla & Hba).
+        destruct (scoped FCond (Jc ++ bc :: r) (fun r2 => run Static r2 false s1)) as [[ra oa]|] eqn:Ea; [|discriminate].
+        destruct (Gs _ _ _ _ _ Hh1 Hbc IHs1 Ea) as (Ja & ba & -> & Hla & Hba).
         destruct (scoped FCond (Ja ++ ba :: r) (fun r2 => run Static r2 false s2)) as [[rb ob]|] eqn:Eb; [|discriminate].
         injection E1 as <- <-.
         destruct (Gs _ _ _ _ _ Hh2 Hba IHs2 Eb) as (Jb & bb & -> & Hlb & Hbb).
         exists Jb, bb. repeat split; auto. cbn in *. congruence.
-      - destruct (Z.ltb 0 z).
-        + destruct (Gs _ _ _ _ _ Hh1 Hb IHs1 E1) as (Ja & ba & -> & Hla & Hba). exists Ja, ba. auto.
-        + destruct (Gs _ _ _ _ _ Hh2 Hb IHs2 E1) as (Ja & ba & -> & Hla & Hba). exists Ja, ba. auto. }
+      - destruct (Z.ltb 0 vc).
+        + destruct (Gs _ _ _ _ _ Hh1 Hbc IHs1 E1) as (Ja & ba & -> & Hla & Hba). exists Ja, ba. cbn in *. repeat split; auto; congruence.
+        + destruct (Gs _ _ _ _ _ Hh2 Hbc IHs2 E1) as (Ja & ba & -> & Hla & Hba). exists Ja, ba. cbn in *. repeat split; auto; congruence. }
     destruct G as (J1 & b1 & -> & Hl1 & Hb1).
     destruct J1 as [|f1 J1]; cbn in Hl1; [discriminate|]. cbn. exists J1, b1. auto.
   - unfold scoped, push in H.
@@ -341,11 +384,13 @@ Proof.
   destruct J1; [reflexivity | discriminate].
 Qed.
 
-Lemma let_local : forall m f r u x e e' o,
-  run m (f :: r) u (SLet x e) = Some (e', o) -> tl e' = r.
+(* beyond what its initialiser does, a binder touches the current frame only *)
+Lemma bind_local : forall r u x e e' v,
+  eval r u (EBind x e) = Some (e', v) ->
+  exists f1 r1, eval r u e = Some (f1 :: r1, v) /\ e' = add f1 x v :: r1.
 Proof.
-  intros m f r u x e e' o H. cbn [run] in H.
-  destruct (eval (f :: r) u e); [|discriminate]. injection H as <- <-. reflexivity.
+  intros r u x e e' v H. cbn [eval] in H.
+  destruct (eval r u e) as [[[|f1 r1] v1]|]; try discriminate. injection H as <- <-. eauto.
 Qed.
 
 (* ------------------------------------------------------------------ expansion by hand *)
@@ -443,17 +488,6 @@ Proof.
     + rewrite get_ren. destruct (get f x); [reflexivity|]. cbn [ren_frame ftyp]. rewrite IH. reflexivity.
 Qed.
 
-Lemma eval_rel : forall e J v r u,
-  env_below K r = true -> expr_below K e = true ->
-  eval (E2 J v r) u (rename_expr sg (sc_of J v) u e) = eval (E1 J v r) u e.
-Proof.
-  induction e; intros J v r u Hr He; cbn [rename_expr eval expr_below] in *.
-  - reflexivity.
-  - apply N.ltb_lt in He. now rewrite resolve_rel.
-  - apply andb_true_iff in He as [H1 H2]. now rewrite IHe1, IHe2.
-  - now apply IHe.
-Qed.
-
 (* related environments after a step *)
 Definition relenv (n : nat) (sc : scope) (r : env) (e1 e2 : env) : Prop :=
   exists J v r', e1 = E1 J v r' /\ e2 = E2 J v r' /\ length J = n /\ sc_of J v = sc /\ shape r' = shape r.
@@ -523,6 +557,84 @@ Proof.
       * cbn [ren_frame ftyp]. destruct (ftyp f); try (apply Lift; exact IH). exact I.
 Qed.
 
+Definition releres (n : nat) (sc : scope) (r : env) (a b : eres) : Prop :=
+  match a, b with
+  | None, None => True
+  | Some (e1, v1), Some (e2, v2) => v1 = v2 /\ relenv n sc r e1 e2
+  | _, _ => False
+  end.
+
+Lemma relres_shape : forall n sc r r0 a b, shape r0 = shape r -> relres n sc r0 a b -> relres n sc r a b.
+Proof.
+  intros n sc r r0 [[e1 o1]|] [[e2 o2]|] Hs H; cbn in *; auto.
+  destruct H as [Ho (J & v & r' & -> & -> & Hl & Hsc & Hsh)]. split; [exact Ho|].
+  exists J, v, r'. repeat split; auto. congruence.
+Qed.
+
+Lemma rename_expr_scope_tl : forall e sc u, tl (snd (rename_expr sg sc u e)) = tl sc.
+Proof.
+  induction e; intros sc u; cbn [rename_expr]; try reflexivity.
+  - destruct (rename_expr sg sc u e1) as [a' sc1] eqn:E1.
+    destruct (rename_expr sg sc1 u e2) as [b' sc2] eqn:E2. cbn.
+    pose proof (IHe1 sc u) as H1. pose proof (IHe2 sc1 u) as H2. rewrite E1 in H1. rewrite E2 in H2.
+    cbn in *. congruence.
+  - destruct (rename_expr sg sc true e) as [e'' sc'] eqn:E. pose proof (IHe sc true) as H. now rewrite E in H.
+  - destruct (rename_expr sg sc u e) as [e'' sc'] eqn:E. pose proof (IHe sc u) as H. rewrite E in H. cbn in *.
+    destruct sc'; cbn in *; auto.
+  - destruct (rename_expr sg sc u e) as [e'' sc'] eqn:E. pose proof (IHe sc u) as H. now rewrite E in H.
+Qed.
+
+(* evaluation of an expression and of its renaming: same value, related environments (binders
+   and assignments inside operands included) *)
+Lemma eval_rel : forall e u J v r,
+  env_below K r = true -> expr_below K e = true ->
+  releres (length J) (snd (rename_expr sg (sc_of J v) u e)) r
+    (eval (E1 J v r) u e) (eval (E2 J v r) u (fst (rename_expr sg (sc_of J v) u e))).
+Proof.
+  induction e; intros u J v r Hr He; cbn [expr_below] in He.
+  - cbn. split; [reflexivity|]. exists J, v, r. auto.
+  - apply N.ltb_lt in He. cbn [rename_expr fst snd eval]. rewrite resolve_rel by assumption.
+    destruct (resolve (E1 J v r) x u) as [[d w]|]; cbn; auto. split; [reflexivity|]. exists J, v, r. auto.
+  - apply andb_true_iff in He as [H1 H2]. cbn [rename_expr].
+    pose proof (IHe1 u J v r Hr H1) as G1.
+    destruct (rename_expr sg (sc_of J v) u e1) as [a' sc1] eqn:Ea. cbn [fst snd] in G1.
+    destruct (rename_expr sg sc1 u e2) as [b' sc2] eqn:Eb. cbn [fst snd eval].
+    destruct (eval (E1 J v r) u e1) as [[x1 y1]|]; destruct (eval (E2 J v r) u a') as [[x2 y2]|];
+      cbn in G1; try contradiction; [|exact I].
+    destruct G1 as [-> (J' & v' & r' & -> & -> & Hl & Hsc & Hsh)].
+    assert (Hr' : env_below K r' = true) by (now rewrite (env_below_shape K r' r)).
+    pose proof (IHe2 u J' v' r' Hr' H2) as G2. rewrite Hsc, Eb in G2. cbn [fst snd] in G2. rewrite Hl in G2.
+    destruct (eval (E1 J' v' r') u e2) as [[x3 y3]|]; destruct (eval (E2 J' v' r') u b') as [[x4 y4]|];
+      cbn in G2; try contradiction; [|exact I].
+    destruct G2 as [-> (J2 & v2 & r2 & -> & -> & Hl2 & Hsc2 & Hsh2)]. split; [reflexivity|].
+    exists J2, v2, r2. repeat split; auto. congruence.
+  - cbn [rename_expr]. pose proof (IHe true J v r Hr He) as H.
+    destruct (rename_expr sg (sc_of J v) true e) as [e'' sc'] eqn:E. cbn [fst snd eval] in *. exact H.
+  - apply andb_true_iff in He as [Hx He]. apply N.ltb_lt in Hx. cbn [rename_expr].
+    pose proof (IHe u J v r Hr He) as G.
+    destruct (rename_expr sg (sc_of J v) u e) as [e'' sc'] eqn:Ee. cbn [fst snd eval] in *.
+    destruct (eval (E1 J v r) u e) as [[x1 y1]|]; destruct (eval (E2 J v r) u e'') as [[x2 y2]|];
+      cbn in G; try contradiction; [|exact I].
+    destruct G as [-> (J' & v' & r' & -> & -> & Hl & Hsc & Hsh)]. rewrite <- Hsc.
+    destruct J' as [|f J']; unfold E1, E2; cbn [map app]; cbn.
+    + split; [reflexivity|]. exists [], (set v' x y2), r'. unfold E1, E2, sc_of, add. cbn.
+      rewrite set_ren, names_set. auto.
+    + split; [reflexivity|]. exists (add f x y2 :: J'), v', r'. unfold E1, E2, sc_of, add, ren_frame. cbn.
+      rewrite set_ren. unfold frame_names. cbn. rewrite names_set. auto.
+  - apply andb_true_iff in He as [Hx He]. apply N.ltb_lt in Hx. cbn [rename_expr].
+    pose proof (IHe u J v r Hr He) as G.
+    destruct (rename_expr sg (sc_of J v) u e) as [e'' sc'] eqn:Ee. cbn [fst snd] in *. rewrite !eval_set.
+    destruct (eval (E1 J v r) u e) as [[x1 y1]|]; destruct (eval (E2 J v r) u e'') as [[x2 y2]|];
+      cbn in G; try contradiction; [|exact I].
+    destruct G as [-> (J' & v' & r' & -> & -> & Hl & Hsc & Hsh)].
+    assert (Hr' : env_below K r' = true) by (now rewrite (env_below_shape K r' r)).
+    pose proof (assign_rel J' v' r' x u y2 Hr' Hx) as H. rewrite Hsc, Hl in H.
+    destruct (assign (E1 J' v' r') x u y2) as [a1|]; destruct (assign (E2 J' v' r') _ u y2) as [a2|];
+      cbn in H; try contradiction; [|exact I].
+    cbn. split; [reflexivity|].
+    destruct H as (J2 & v2 & r2 & -> & -> & Hl2 & Hsc2 & Hsh2). exists J2, v2, r2. repeat split; auto. congruence.
+Qed.
+
 Lemma rename_scope_tl : forall s sc u, tl (snd (rename sg sc u s)) = tl sc.
 Proof.
   induction s; intros sc u; cbn [rename]; try reflexivity.
@@ -530,18 +642,9 @@ Proof.
     destruct (rename sg sc1 u s2) as [b' sc2] eqn:E2. cbn.
     pose proof (IHs1 sc u) as H1. pose proof (IHs2 sc1 u) as H2. rewrite E1 in H1. rewrite E2 in H2.
     cbn in *. congruence.
-  - destruct sc; reflexivity.
-  - destruct (rename sg sc true s) as [b' sc'] eqn:E. pose proof (IHs sc true) as H. now rewrite E in H.
-Qed.
-
-Lemma rename_scope_len : forall s sc u, length (snd (rename sg sc u s)) = length sc.
-Proof.
-  induction s; intros sc u; cbn [rename]; try reflexivity.
-  - destruct (rename sg sc u s1) as [a' sc1] eqn:E1.
-    destruct (rename sg sc1 u s2) as [b' sc2] eqn:E2. cbn.
-    pose proof (IHs1 sc u) as H1. pose proof (IHs2 sc1 u) as H2. rewrite E1 in H1. rewrite E2 in H2.
-    cbn in *. congruence.
-  - destruct sc; reflexivity.
+  - pose proof (rename_expr_scope_tl e sc u) as H. destruct (rename_expr sg sc u e) as [e' sc']. exact H.
+  - pose proof (rename_expr_scope_tl e sc u) as H. destruct (rename_expr sg sc u e) as [e' sc']. exact H.
+  - destruct (rename_expr sg ([] :: sc) u c) as [c' sc1]. reflexivity.
   - destruct (rename sg sc true s) as [b' sc'] eqn:E. pose proof (IHs sc true) as H. now rewrite E in H.
 Qed.
 
@@ -594,57 +697,53 @@ Proof.
     destruct (run m (E1 J' v' r') u s2) as [[x1 y1]|]; destruct (run m (E2 J' v' r') u b') as [[x2 y2]|]; cbn in *; auto.
     destruct H2 as [Ho (J2 & v2 & r2 & -> & -> & Hl2 & Hsc2 & Hsh2)]. split; [exact Ho|].
     exists J2, v2, r2. repeat split; auto. congruence.
-  - apply andb_true_iff in Hs as [Hx He]. apply N.ltb_lt in Hx. cbn [rename fst snd run].
-    rewrite (eval_rel _ _ _ _ _ Hr He).
-    destruct (eval (E1 J v r) u e) as [z|]; [|destruct J; cbn; exact I].
-    destruct J as [|f J]; unfold E1, E2; cbn [map app]; cbn.
-    + split; [reflexivity|]. exists [], (set v x z), r. unfold E1, E2, sc_of, add. cbn.
-      rewrite set_ren, names_set. auto.
-    + split; [reflexivity|]. exists (add f x z :: J), v, r. unfold E1, E2, sc_of, add, ren_frame. cbn.
-      rewrite set_ren. unfold frame_names. cbn. rewrite names_set. auto.
-  - apply andb_true_iff in Hs as [Hx He]. apply N.ltb_lt in Hx. cbn [rename fst snd].
-    rewrite !run_assign. rewrite (eval_rel _ _ _ _ _ Hr He).
-    destruct (eval (E1 J v r) u e) as [z|]; [|exact I].
-    pose proof (assign_rel J v r x u z Hr Hx) as H.
-    destruct (assign (E1 J v r) x u z); destruct (assign (E2 J v r) _ u z); cbn in *; auto.
-  - cbn [rename fst snd run]. rewrite (eval_rel _ _ _ _ _ Hr Hs).
-    destruct (eval (E1 J v r) u e); cbn; auto. split; [reflexivity|]. exists J, v, r. auto.
+  - cbn [rename]. pose proof (eval_rel e u J v r Hr Hs) as G.
+    destruct (rename_expr sg (sc_of J v) u e) as [e' sc'] eqn:Ee. cbn [fst snd run] in *.
+    destruct (eval (E1 J v r) u e) as [[x1 y1]|]; destruct (eval (E2 J v r) u e') as [[x2 y2]|];
+      cbn in G; try contradiction; [|exact I].
+    destruct G as [_ G]. cbn. auto.
+  - cbn [rename]. pose proof (eval_rel e u J v r Hr Hs) as G.
+    destruct (rename_expr sg (sc_of J v) u e) as [e' sc'] eqn:Ee. cbn [fst snd run] in *.
+    destruct (eval (E1 J v r) u e) as [[x1 y1]|]; destruct (eval (E2 J v r) u e') as [[x2 y2]|];
+      cbn in G; try contradiction; [|exact I].
+    destruct G as [-> G]. cbn. auto.
   - cbn [rename fst snd run].
     apply scoped_rel with (sc' := snd (rename sg ([] :: sc_of J v) u s)).
     + apply rename_scope_tl.
     + apply (IHs m u (mkFrame FDefault [] :: J) v r Hr Hs).
   - apply andb_true_iff in Hs as [Hs Hs2]. apply andb_true_iff in Hs as [Hc Hs1].
-    cbn [rename fst snd run].
-    assert (Branch : forall sb J0 v0 r0, stmt_below K sb = true -> env_below K r0 = true ->
+    cbn [rename].
+    assert (Branch : forall sb J0 v0 r0, stmt_below K sb = true -> env_below K r0 = true -> shape r0 = shape r ->
               (forall m u J v r, env_below K r = true -> stmt_below K sb = true ->
                  relres (length J) (snd (rename sg (sc_of J v) u sb)) r
                    (run m (E1 J v r) u sb) (run m (E2 J v r) u (fst (rename sg (sc_of J v) u sb)))) ->
-              relres (length J0) (sc_of J0 v0) r0
+              relres (length J0) (sc_of J0 v0) r
                 (scoped FCond (E1 J0 v0 r0) (fun r2 => run m r2 u sb))
                 (scoped FCond (E2 J0 v0 r0) (fun r2 => run m r2 u (fst (rename sg ([] :: sc_of J0 v0) u sb))))).
-    { intros sb J0 v0 r0 Hsb Hr0 IHb.
+    { intros sb J0 v0 r0 Hsb Hr0 Hsh0 IHb. apply (relres_shape _ _ r r0 _ _ Hsh0).
       apply scoped_rel with (sc' := snd (rename sg ([] :: sc_of J0 v0) u sb)).
       - apply rename_scope_tl.
       - apply (IHb m u (mkFrame FCond [] :: J0) v0 r0 Hr0 Hsb). }
-    apply scoped_rel with (sc' := [] :: sc_of J v); [reflexivity|].
-    change ([] :: sc_of J v) with (sc_of (mkFrame FDefault [] :: J) v).
-    rewrite (eval_rel c (mkFrame FDefault [] :: J) v r u Hr Hc).
-    destruct (eval (E1 (mkFrame FDefault [] :: J) v r) u c) as [z|]; [|exact I].
-    change ([] :: sc_of (mkFrame FDefault [] :: J) v) with ([] :: [] :: sc_of J v).
-    change ([] :: [] :: sc_of J v) with ([] :: sc_of (mkFrame FDefault [] :: J) v).
+    pose proof (eval_rel c u (mkFrame FDefault [] :: J) v r Hr Hc) as Gc.
+    change (sc_of (mkFrame FDefault [] :: J) v) with ([] :: sc_of J v) in Gc.
+    pose proof (rename_expr_scope_tl c ([] :: sc_of J v) u) as Tc.
+    destruct (rename_expr sg ([] :: sc_of J v) u c) as [c' sc1] eqn:Ec. cbn [fst snd tl] in *. cbn [run].
+    apply scoped_rel with (sc' := sc1); [exact Tc|]. cbn beta.
+    destruct (eval (E1 (mkFrame FDefault [] :: J) v r) u c) as [[x1 z1]|];
+      destruct (eval (E2 (mkFrame FDefault [] :: J) v r) u c') as [[x2 z2]|];
+      cbn in Gc; try contradiction; [|exact I].
+    destruct Gc as [-> (J1 & v1 & r1 & -> & -> & Hl1 & Hsc1 & Hsh1)].
+    assert (Hr1 : env_below K r1 = true) by (now rewrite (env_below_shape K r1 r)).
+    rewrite <- Hl1, <- Hsc1.
     destruct m.
     + eapply relres_bind.
-      * apply (Branch s1 (mkFrame FDefault [] :: J) v r Hs1 Hr IHs1).
+      * apply (Branch s1 J1 v1 r1 Hs1 Hr1 Hsh1 IHs1).
       * intros e1 e2 (J' & v' & r' & -> & -> & Hl & Hsc & Hsh).
         assert (Hr' : env_below K r' = true) by (now rewrite (env_below_shape K r' r)).
-        pose proof (Branch s2 J' v' r' Hs2 Hr' IHs2) as H2. rewrite Hsc, Hl in H2.
-        destruct (scoped FCond (E1 J' v' r') _) as [[x1 y1]|];
-          destruct (scoped FCond (E2 J' v' r') _) as [[x2 y2]|]; cbn in *; auto.
-        destruct H2 as [Ho (J2 & v2 & r2 & -> & -> & Hl2 & Hsc2 & Hsh2)]. split; [exact Ho|].
-        exists J2, v2, r2. repeat split; auto. congruence.
-    + destruct (Z.ltb 0 z).
-      * apply (Branch s1 (mkFrame FDefault [] :: J) v r Hs1 Hr IHs1).
-      * apply (Branch s2 (mkFrame FDefault [] :: J) v r Hs2 Hr IHs2).
+        pose proof (Branch s2 J' v' r' Hs2 Hr' Hsh IHs2) as H2. rewrite Hsc, Hl in H2. exact H2.
+    + destruct (Z.ltb 0 z2).
+      * apply (Branch s1 J1 v1 r1 Hs1 Hr1 Hsh1 IHs1).
+      * apply (Branch s2 J1 v1 r1 Hs2 Hr1 Hsh1 IHs2).
   - cbn [rename fst snd run].
     apply scoped_rel with (sc' := snd (rename sg ([] :: sc_of J v) u s)).
     + apply rename_scope_tl.
@@ -705,21 +804,38 @@ Qed.
 
 Definition is_some {A} (o : option A) : bool := match o with Some _ => true | None => false end.
 
-Lemma eval_shape : forall e r r' u, shape r = shape r' -> is_some (eval r u e) = is_some (eval r' u e).
-Proof.
-  induction e; intros r r' u H; cbn [eval].
-  - reflexivity.
-  - pose proof (resolve_shape r r' x u H) as G.
-    destruct (resolve r x u) as [[d v]|]; destruct (resolve r' x u) as [[d' v']|]; cbn in *; congruence.
-  - pose proof (IHe1 r r' u H). pose proof (IHe2 r r' u H).
-    destruct (eval r u e1); destruct (eval r' u e1); destruct (eval r u e2); destruct (eval r' u e2); cbn in *; congruence.
-  - apply IHe; auto.
-Qed.
-
 Lemma shape_add : forall f g x v w, ftyp f = ftyp g -> frame_names f = frame_names g ->
   (ftyp (add f x v), frame_names (add f x v)) = (ftyp (add g x w), frame_names (add g x w)).
 Proof.
   intros f g x v w Ht Hn. unfold add, frame_names in *. cbn. rewrite !names_set, Hn, Ht. reflexivity.
+Qed.
+
+Lemma eval_static : forall e r r' u r1 v1,
+  shape r = shape r' -> eval r u e = Some (r1, v1) ->
+  exists r2 v2, eval r' u e = Some (r2, v2) /\ shape r2 = shape r1.
+Proof.
+  induction e; intros r r' u r1 v1 Hs H; cbn [eval] in *.
+  - injection H as <- <-. eauto.
+  - pose proof (resolve_shape r r' x u Hs) as G.
+    destruct (resolve r x u) as [[d w]|]; [|discriminate].
+    destruct (resolve r' x u) as [[d' w']|]; [|discriminate]. injection H as <- <-. eauto.
+  - destruct (eval r u e1) as [[ra xa]|] eqn:Ea; [|discriminate].
+    destruct (eval ra u e2) as [[rb xb]|] eqn:Eb; [|discriminate]. injection H as <- <-.
+    destruct (IHe1 _ _ _ _ _ Hs Ea) as (ra' & xa' & -> & Hsa).
+    destruct (IHe2 _ _ _ _ _ (eq_sym Hsa) Eb) as (rb' & xb' & -> & Hsb). eauto.
+  - eapply IHe; eauto.
+  - destruct (eval r u e) as [[ra xa]|] eqn:Ea; [|discriminate].
+    destruct (IHe _ _ _ _ _ Hs Ea) as (ra' & xa' & -> & Hsa).
+    destruct ra as [|f r0]; [discriminate|]. injection H as <- <-.
+    destruct (shape_cons_inv _ _ _ (eq_sym Hsa)) as (g & r0' & -> & Ht & Hn & Hr).
+    exists (add g x xa' :: r0'), xa'. split; [reflexivity|]. cbn [shape map].
+    rewrite (shape_add g f x xa' xa Ht Hn). f_equal. symmetry. exact Hr.
+  - destruct (eval r u e) as [[ra xa]|] eqn:Ea; [|discriminate].
+    destruct (IHe _ _ _ _ _ Hs Ea) as (ra' & xa' & -> & Hsa).
+    pose proof (resolve_shape ra ra' x u (eq_sym Hsa)) as G2.
+    destruct (resolve ra x u) as [[d w]|]; [|discriminate].
+    destruct (resolve ra' x u) as [[d' w']|]; [|discriminate]. injection H as <- <-.
+    eexists _, _. split; [reflexivity|]. rewrite !shape_update. exact Hsa.
 Qed.
 
 Lemma scoped_shape : forall m t r u b r1 o,
@@ -743,20 +859,10 @@ Proof.
     destruct (run Static ra u s2) as [[rb ob]|] eqn:Eb; [|discriminate]. injection H as <- <-.
     destruct (IHs1 _ _ _ _ _ Hs Ea) as (ra' & oa' & -> & Hsa).
     destruct (IHs2 _ _ _ _ _ (eq_sym Hsa) Eb) as (rb' & ob' & -> & Hsb). eauto.
-  - pose proof (eval_shape e r r' u Hs) as G.
-    destruct (eval r u e) as [v|]; [|discriminate]. destruct (eval r' u e) as [v'|]; [|discriminate].
-    destruct r as [|f r0]; [discriminate|]. injection H as <- <-.
-    destruct (shape_cons_inv _ _ _ Hs) as (g & r0' & -> & Ht & Hn & Hr).
-    exists (add g x v' :: r0'), []. split; [reflexivity|]. cbn [shape map].
-    rewrite (shape_add g f x v' v Ht Hn). f_equal. symmetry. exact Hr.
-  - pose proof (eval_shape e r r' u Hs) as G. pose proof (resolve_shape r r' x u Hs) as G2.
-    destruct (eval r u e) as [v|]; [|discriminate]. destruct (eval r' u e) as [v'|]; [|discriminate].
-    destruct (resolve r x u) as [[d w]|]; [|discriminate].
-    destruct (resolve r' x u) as [[d' w']|]; [|discriminate]. injection H as <- <-.
-    eexists _, _. split; [reflexivity|]. rewrite !shape_update. symmetry. exact Hs.
-  - pose proof (eval_shape e r r' u Hs) as G.
-    destruct (eval r u e) as [v|]; [|discriminate]. destruct (eval r' u e) as [v'|]; [|discriminate].
-    injection H as <- <-. eauto.
+  - destruct (eval r u e) as [[ra va]|] eqn:Ea; [|discriminate]. injection H as <- <-.
+    destruct (eval_static _ _ _ _ _ _ Hs Ea) as (ra' & va' & -> & Hsa). eauto.
+  - destruct (eval r u e) as [[ra va]|] eqn:Ea; [|discriminate]. injection H as <- <-.
+    destruct (eval_static _ _ _ _ _ _ Hs Ea) as (ra' & va' & -> & Hsa). eauto.
   - unfold scoped, push in *.
     destruct (run Static (mkFrame FDefault [] :: r) u s) as [[ra oa]|] eqn:Ea; [|discriminate]. injection H as <- <-.
     assert (Hp : shape (mkFrame FDefault [] :: r) = shape (mkFrame FDefault [] :: r')) by (apply shape_push; assumption).
@@ -764,11 +870,10 @@ Proof.
     unfold pop. destruct ra', ra; cbn in *; try discriminate; auto. now injection Hsa.
   - unfold scoped at 1 in H. unfold scoped at 1. unfold push in *.
     assert (Hp : shape (mkFrame FDefault [] :: r) = shape (mkFrame FDefault [] :: r')) by (apply shape_push; assumption).
-    pose proof (eval_shape c _ _ u Hp) as G.
-    destruct (eval (mkFrame FDefault [] :: r) u c) as [v|]; [|discriminate].
-    destruct (eval (mkFrame FDefault [] :: r') u c) as [v'|]; [|discriminate].
+    destruct (eval (mkFrame FDefault [] :: r) u c) as [[rc v]|] eqn:Ec; [|discriminate].
+    destruct (eval_static _ _ _ _ _ _ Hp Ec) as (rc' & v' & -> & Hc').
     unfold bind in H.
-    destruct (scoped FCond (mkFrame FDefault [] :: r) (fun r2 => run Static r2 u s1)) as [[ra oa]|] eqn:Ea; [|discriminate].
+    destruct (scoped FCond rc (fun r2 => run Static r2 u s1)) as [[ra oa]|] eqn:Ea; [|discriminate].
     destruct (scoped FCond ra (fun r2 => run Static r2 u s2)) as [[rb ob]|] eqn:Eb; [|discriminate].
     injection H as <- <-.
     pose proof (scoped_shape _ _ _ _ _ _ _ Ea) as Sa. pose proof (scoped_shape _ _ _ _ _ _ _ Eb) as Sb.
@@ -779,17 +884,17 @@ Proof.
               scoped FCond rin (fun r2 => run Static r2 u sb) = Some (rout, oo) ->
               exists r2 o2, scoped FCond rin' (fun r2 => run Dynamic r2 u sb) = Some (r2, o2) /\ shape r2 = shape rin').
     { intros sb rin rin' rout oo IHb Hin Hrun. unfold scoped, push in *.
-      destruct (run Static (mkFrame FCond [] :: rin) u sb) as [[rc oc]|] eqn:Ec; [|discriminate].
+      destruct (run Static (mkFrame FCond [] :: rin) u sb) as [[rc0 oc]|] eqn:Ec0; [|discriminate].
       assert (Hq : shape (mkFrame FCond [] :: rin) = shape (mkFrame FCond [] :: rin')) by (apply shape_push; assumption).
-      destruct (IHb _ _ _ _ _ Hq Ec) as (rc' & oc' & Erun & Hsc). rewrite Erun.
+      destruct (IHb _ _ _ _ _ Hq Ec0) as (rc0' & oc' & Erun & Hsc). rewrite Erun.
       eexists _, _. split; [reflexivity|].
       destruct (run_shape _ _ _ _ _ _ _ Erun) as (f' & r0 & -> & _ & Hs0). exact Hs0. }
     destruct (Z.ltb 0 v').
-    + destruct (Branch s1 _ _ _ _ IHs1 Hp Ea) as (r2 & o2 & -> & S2).
+    + destruct (Branch s1 _ _ _ _ IHs1 (eq_sym Hc') Ea) as (r2 & o2 & -> & S2).
       eexists _, _. split; [reflexivity|]. unfold pop.
       assert (shape r2 = shape rb) by congruence.
       destruct r2, rb; cbn in *; try discriminate; auto. now injection H.
-    + assert (Hq : shape ra = shape (mkFrame FDefault [] :: r')) by congruence.
+    + assert (Hq : shape ra = shape rc') by congruence.
       destruct (Branch s2 _ _ _ _ IHs2 Hq Eb) as (r2 & o2 & -> & S2).
       eexists _, _. split; [reflexivity|]. unfold pop.
       assert (shape r2 = shape rb) by congruence.
@@ -816,16 +921,17 @@ Proof.
   induction e; intros Hle H; cbn in *; auto.
   - apply N.ltb_lt in H. apply N.ltb_lt. lia.
   - apply andb_true_iff in H as [H1 H2]. rewrite IHe1, IHe2; auto.
+  - apply andb_true_iff in H as [H1 H2]. apply N.ltb_lt in H1. rewrite IHe; auto.
+    rewrite andb_true_r. apply N.ltb_lt. lia.
+  - apply andb_true_iff in H as [H1 H2]. apply N.ltb_lt in H1. rewrite IHe; auto.
+    rewrite andb_true_r. apply N.ltb_lt. lia.
 Qed.
 
 Lemma stmt_below_mono : forall T T' s, (T <= T')%N -> stmt_below T s = true -> stmt_below T' s = true.
 Proof.
   induction s; intros Hle H; cbn in *; auto.
   - apply andb_true_iff in H as [H1 H2]. rewrite IHs1, IHs2; auto.
-  - apply andb_true_iff in H as [H1 H2]. apply N.ltb_lt in H1.
-    rewrite (expr_below_mono T T' e Hle H2). replace (N.ltb x T') with true; auto. symmetry. apply N.ltb_lt. lia.
-  - apply andb_true_iff in H as [H1 H2]. apply N.ltb_lt in H1.
-    rewrite (expr_below_mono T T' e Hle H2). replace (N.ltb x T') with true; auto. symmetry. apply N.ltb_lt. lia.
+  - eapply expr_below_mono; eauto.
   - eapply expr_below_mono; eauto.
   - apply andb_true_iff in H as [H H3]. apply andb_true_iff in H as [H1 H2].
     rewrite (expr_below_mono T T' c Hle H1), IHs1, IHs2; auto.
@@ -857,6 +963,29 @@ Proof.
   specialize (Hk _ Hp _ _ E). destruct r2; cbn in *; auto. apply andb_true_iff in Hk as [_ Hk]. exact Hk.
 Qed.
 
+Lemma eval_below : forall T e r u r' v,
+  env_below T r = true -> expr_below T e = true -> eval r u e = Some (r', v) -> env_below T r' = true.
+Proof.
+  induction e; intros r u r' v Hr He H; cbn [eval expr_below] in *.
+  - injection H as <- <-. exact Hr.
+  - destruct (resolve r x u) as [[d w]|]; [|discriminate]. injection H as <- <-. exact Hr.
+  - apply andb_true_iff in He as [H1 H2].
+    destruct (eval r u e1) as [[ra xa]|] eqn:Ea; [|discriminate].
+    destruct (eval ra u e2) as [[rb xb]|] eqn:Eb; [|discriminate]. injection H as <- <-.
+    eapply IHe2; [eapply IHe1; eauto | exact H2 | exact Eb].
+  - eapply IHe; eauto.
+  - apply andb_true_iff in He as [Hx He]. apply N.ltb_lt in Hx.
+    destruct (eval r u e) as [[ra xa]|] eqn:Ea; [|discriminate].
+    pose proof (IHe _ _ _ _ Hr He Ea) as Ha.
+    destruct ra as [|f r0]; [discriminate|]. injection H as <- <-.
+    cbn in *. apply andb_true_iff in Ha as [G1 G2]. rewrite G2, andb_true_r. now apply frame_below_add.
+  - apply andb_true_iff in He as [Hx He].
+    destruct (eval r u e) as [[ra xa]|] eqn:Ea; [|discriminate].
+    pose proof (IHe _ _ _ _ Hr He Ea) as Ha.
+    destruct (resolve ra x u) as [[d w]|]; [|discriminate].
+    injection H as <- <-. rewrite (env_below_shape T _ ra (shape_update ra d x xa)). exact Ha.
+Qed.
+
 Lemma run_below : forall T s m r u r' o,
   env_below T r = true -> stmt_below T s = true -> run m r u s = Some (r', o) -> env_below T r' = true.
 Proof.
@@ -866,16 +995,15 @@ Proof.
     destruct (run m r u s1) as [[ra oa]|] eqn:Ea; [|discriminate].
     destruct (run m ra u s2) as [[rb ob]|] eqn:Eb; [|discriminate]. injection H as <- <-.
     eapply IHs2; [eapply IHs1; eauto | exact Hs2 | exact Eb].
-  - apply andb_true_iff in Hs as [Hx He]. apply N.ltb_lt in Hx.
-    destruct (eval r u e); [|discriminate]. destruct r as [|f r0]; [discriminate|]. injection H as <- <-.
-    cbn in *. apply andb_true_iff in Hr as [H1 H2]. rewrite H2, andb_true_r. now apply frame_below_add.
-  - destruct (eval r u e); [|discriminate]. destruct (resolve r x u) as [[d w]|]; [|discriminate].
-    injection H as <- <-. rewrite (env_below_shape T _ r (shape_update r d x z)). exact Hr.
-  - destruct (eval r u e); [|discriminate]. injection H as <- <-. exact Hr.
+  - destruct (eval r u e) as [[ra va]|] eqn:Ea; [|discriminate]. injection H as <- <-.
+    eapply eval_below; eauto.
+  - destruct (eval r u e) as [[ra va]|] eqn:Ea; [|discriminate]. injection H as <- <-.
+    eapply eval_below; eauto.
   - eapply scoped_below; [|exact Hr|exact H]. intros r1 Hr1 r2 o2 E. cbn beta in E. eapply IHs; [exact Hr1|exact Hs|exact E].
   - apply andb_true_iff in Hs as [Hs Hs2]. apply andb_true_iff in Hs as [Hc Hs1].
     eapply scoped_below; [|exact Hr|exact H]. intros r1 Hr1 r2 o2 E. cbn beta in E.
-    destruct (eval r1 u c); [|discriminate].
+    destruct (eval r1 u c) as [[rc z]|] eqn:Ec; [|discriminate].
+    pose proof (eval_below _ _ _ _ _ _ Hr1 Hc Ec) as Hrc.
     assert (B1 : forall ra rb ob, env_below T ra = true ->
                scoped FCond ra (fun r2 => run m r2 u s1) = Some (rb, ob) -> env_below T rb = true).
     { intros ra rb ob Ha Eb. eapply scoped_below; [|exact Ha|exact Eb]. intros r3 H3 r4 o4 E4. cbn beta in E4. eapply IHs1; [exact H3|exact Hs1|exact E4]. }
@@ -884,7 +1012,7 @@ Proof.
     { intros ra rb ob Ha Eb. eapply scoped_below; [|exact Ha|exact Eb]. intros r3 H3 r4 o4 E4. cbn beta in E4. eapply IHs2; [exact H3|exact Hs2|exact E4]. }
     destruct m.
     + unfold bind in E.
-      destruct (scoped FCond r1 (fun r2 => run Static r2 u s1)) as [[ra oa]|] eqn:Ea; [|discriminate].
+      destruct (scoped FCond rc (fun r2 => run Static r2 u s1)) as [[ra oa]|] eqn:Ea; [|discriminate].
       destruct (scoped FCond ra (fun r2 => run Static r2 u s2)) as [[rb ob]|] eqn:Eb; [|discriminate].
       injection E as <- <-. eapply B2; [eapply B1; eauto | exact Eb].
     + destruct (Z.ltb 0 z); [eapply B1 | eapply B2]; eauto.
@@ -900,11 +1028,19 @@ Hypothesis sg_lt : forall x, (x < T)%N -> (sg x < T')%N.
 Lemma ren_name_below : forall sc u x, (x < T)%N -> (ren_name sg sc u x < T')%N.
 Proof. intros sc u x Hx. unfold ren_name. destruct u; [destruct (bound sc x)|]; auto; lia. Qed.
 
-Lemma rename_expr_below : forall e sc u, expr_below T e = true -> expr_below T' (rename_expr sg sc u e) = true.
+Lemma rename_expr_below : forall e sc u, expr_below T e = true -> expr_below T' (fst (rename_expr sg sc u e)) = true.
 Proof.
-  induction e; intros sc u H; cbn in *; auto.
-  - apply N.ltb_lt in H. apply N.ltb_lt. now apply ren_name_below.
-  - apply andb_true_iff in H as [H1 H2]. rewrite IHe1, IHe2; auto.
+  induction e; intros sc u H; cbn [rename_expr expr_below] in *; auto.
+  - cbn. apply N.ltb_lt in H. apply N.ltb_lt. now apply ren_name_below.
+  - apply andb_true_iff in H as [H1 H2]. pose proof (IHe1 sc u H1) as G1.
+    destruct (rename_expr sg sc u e1) as [a' sc1]. pose proof (IHe2 sc1 u H2) as G2.
+    destruct (rename_expr sg sc1 u e2) as [b' sc2]. cbn in *. now rewrite G1, G2.
+  - pose proof (IHe sc true H) as G. destruct (rename_expr sg sc true e) as [e'' sc']. cbn in *. exact G.
+  - apply andb_true_iff in H as [H1 H2]. apply N.ltb_lt in H1. pose proof (IHe sc u H2) as G.
+    destruct (rename_expr sg sc u e) as [e'' sc']. cbn in *. rewrite G, andb_true_r. apply N.ltb_lt. auto.
+  - apply andb_true_iff in H as [H1 H2]. apply N.ltb_lt in H1. pose proof (IHe sc u H2) as G.
+    destruct (rename_expr sg sc u e) as [e'' sc']. cbn in *. rewrite G, andb_true_r. apply N.ltb_lt.
+    now apply ren_name_below.
 Qed.
 
 Lemma rename_below : forall s sc u, stmt_below T s = true -> stmt_below T' (fst (rename sg sc u s)) = true.
@@ -913,14 +1049,12 @@ Proof.
   - apply andb_true_iff in H as [H1 H2]. pose proof (IHs1 sc u H1) as G1.
     destruct (rename sg sc u s1) as [a' sc1]. pose proof (IHs2 sc1 u H2) as G2.
     destruct (rename sg sc1 u s2) as [b' sc2]. cbn in *. now rewrite G1, G2.
-  - apply andb_true_iff in H as [H1 H2]. apply N.ltb_lt in H1. cbn.
-    rewrite rename_expr_below; auto. rewrite andb_true_r. apply N.ltb_lt. auto.
-  - apply andb_true_iff in H as [H1 H2]. apply N.ltb_lt in H1. cbn.
-    rewrite rename_expr_below; auto. rewrite andb_true_r. apply N.ltb_lt. now apply ren_name_below.
-  - cbn. now apply rename_expr_below.
+  - pose proof (rename_expr_below e sc u H) as G. destruct (rename_expr sg sc u e) as [e' sc']. exact G.
+  - pose proof (rename_expr_below e sc u H) as G. destruct (rename_expr sg sc u e) as [e' sc']. exact G.
   - cbn. now apply IHs.
-  - apply andb_true_iff in H as [H H3]. apply andb_true_iff in H as [H1 H2]. cbn.
-    rewrite rename_expr_below, IHs1, IHs2; auto.
+  - apply andb_true_iff in H as [H H3]. apply andb_true_iff in H as [H1 H2].
+    pose proof (rename_expr_below c ([] :: sc) u H1) as G. destruct (rename_expr sg ([] :: sc) u c) as [c' sc1].
+    cbn in *. rewrite G, IHs1, IHs2; auto.
   - cbn. now apply IHs.
   - pose proof (IHs sc true H) as G. destruct (rename sg sc true s) as [b' sc']. cbn in *. exact G.
 Qed.
@@ -956,7 +1090,8 @@ Proof.
     + cbn. rewrite (expr_below_mono n n2 c ltac:(lia) Hc), (stmt_below_mono n1 n2 t' L2 B1), B2. reflexivity.
     + intros m r Hr. cbn [run]. apply scoped_ext. cbn beta.
       assert (Hp : env_below n (push FDefault r) = true) by (cbn; exact Hr).
-      destruct (eval (push FDefault r) u c); [|reflexivity].
+      destruct (eval (push FDefault r) u c) as [[rc z]|] eqn:Ec; [|reflexivity].
+      pose proof (eval_below _ _ _ _ _ _ Hp Hc Ec) as Hrc.
       assert (E1 : forall ra, env_below n ra = true ->
                  scoped FCond ra (fun r2 => run m r2 u t') = scoped FCond ra (fun r2 => run m r2 u s1)).
       { intros ra Ha. apply scoped_ext. apply R1. cbn. exact Ha. }
@@ -964,11 +1099,11 @@ Proof.
                  scoped FCond ra (fun r2 => run m r2 u e') = scoped FCond ra (fun r2 => run m r2 u s2)).
       { intros ra Ha. apply scoped_ext. apply R2. cbn. apply (env_below_mono n n1 ra L1 Ha). }
       destruct m.
-      * rewrite (E1 _ Hp). unfold bind.
-        destruct (scoped FCond (push FDefault r) (fun r2 => run Static r2 u s1)) as [[ra oa]|] eqn:Ea; [|reflexivity].
+      * rewrite (E1 _ Hrc). unfold bind.
+        destruct (scoped FCond rc (fun r2 => run Static r2 u s1)) as [[ra oa]|] eqn:Ea; [|reflexivity].
         rewrite E2; [reflexivity|].
-        rewrite (env_below_shape n ra (push FDefault r) (scoped_shape _ _ _ _ _ _ _ Ea)). exact Hp.
-      * destruct (Z.ltb 0 z); [apply E1 | apply E2]; exact Hp.
+        rewrite (env_below_shape n ra rc (scoped_shape _ _ _ _ _ _ _ Ea)). exact Hrc.
+      * destruct (Z.ltb 0 z); [apply E1 | apply E2]; exact Hrc.
   - destruct (IHs n u Hs) as (L1 & B1 & R1). destruct (expand_all n u s) as [b' n1]. cbn [fst snd] in *.
     split; [lia|]. split.
     + unfold expand_by_hand. cbn [stmt_below].
